@@ -63,6 +63,8 @@ pub enum Ctor {
     TryNew,
     /// build with all but the last k leaves, then `extend` with the rest
     NewThenExtend(usize),
+    /// `Default::default()` (empty collections only)
+    Default,
 }
 
 #[derive(Clone, Copy, PartialEq, Eq, Debug, Serialize, Deserialize, Hash, PartialOrd, Ord)]
@@ -73,6 +75,10 @@ pub enum Dtor {
     IntoIter,
     GetMut,
     ChildMut,
+    /// `iter_mut()` / `(&mut c).into_iter()` (retrying collection)
+    IterMut,
+    /// `AsMut::as_mut` (owned and retrying collections)
+    AsMut,
 }
 
 #[derive(Clone, PartialEq, Eq, Debug, Serialize, Deserialize)]
